@@ -9,6 +9,7 @@ use common::Emitter;
 mod c03;
 mod c15;
 mod compilep;
+mod frontp;
 mod jsonp;
 mod resolvep;
 mod stages;
@@ -91,6 +92,7 @@ fn main() {
         }
         "C11" => wirep::run_c11(&opts, &mut Emitter::new(&mut out, opts.only)),
         "C11-garbage" => wirep::run_garbage_child(&opts),
+        "C12" | "C19" => frontp::run(&opts, &mut Emitter::new(&mut out, opts.only)),
         "C16" => jsonp::run(&opts, &mut Emitter::new(&mut out, opts.only)),
         "C17" => wirep::run_c17(&opts, &mut Emitter::new(&mut out, opts.only)),
         "C18" => wirep::run_c18(&opts, &mut Emitter::new(&mut out, opts.only)),
